@@ -205,7 +205,11 @@ const D_PUA: u32 = 1 << 9;
 const D_NEWLINE: u32 = 1 << 10;
 const E_RAW: u32 = 1 << 11;
 const L_RAW: u32 = 1 << 12;
-const ALL: Sw = Sw((1 << 13) - 1);
+/// Defects that have been repaired in /repo (fix: commits): they are no longer
+/// part of the mirror's "all known defects" baseline, so a return of the old
+/// behaviour matches no signature and is reported.
+const FIXED: u32 = U_DECIMAL;
+const ALL: Sw = Sw(((1 << 13) - 1) & !FIXED);
 
 /// Attribution order: parser defects first, then unquote, interpolation,
 /// Display, equality, length.
